@@ -22,10 +22,16 @@ CONSTS = ("Gen/Consts", "Consts")
 # C05: the text of the integer constant types, tabulated by running the real Asm() methods
 C05CONSTSAMPLES = ("Gen/C05ConstSamples", "C05ConstSamples")
 MAPRANGES = ("Gen/MapRanges", "MapRanges")
+# C17: census of process-level mutable state (go/ssa: writes to / escapes of memory reachable from package-level variables)
+GLOBALS = ("Gen/Globals", "Globals")
 PASSFACTS = ("Gen/PassFacts", "PassFacts")
 # C15: measured (go build + execution through an assembly trampoline): does the assembler save/restore BP
 ASMBP = ("Oracle/AsmBP", "AsmBP")
 BRANCHOPS = ("Gen/BranchOps", "BranchOps")
+# C10: what the real PruneSelfMoves deletes over every two-register shape of the form table (measured on the pass), and
+# which byte lanes a register self-move changes on the host CPU (go tool asm + execution)
+SELFMOVEFACTS = ("Gen/SelfMoveFacts", "SelfMoveFacts")
+MOVEHW = ("Oracle/MoveHW", "MoveHW")
 
 # C04: the compiled form table (x86.VerifForms) as compact rows for the structural facts (8 shards + meta + appender)
 FORMACTION_SHARDS = 8
@@ -34,4 +40,4 @@ def formactions_modules():
             [(f"Gen/FormActions_{i:02d}", f"FormActions_{i:02d}") for i in range(FORMACTION_SHARDS)] +
             [("Gen/FormActions", "FormActions")])
 
-ALL_MODULES = [BRANCHOPS, PASSFACTS, MAPRANGES, TEXTFLAGS, TEXTFLAGH, REGS, REGHW, REGVARS] + forms_modules() + ctors_modules() + [MOV, TAGCHARS, CONSTS, C05CONSTSAMPLES, ASMBP] + formactions_modules()
+ALL_MODULES = [BRANCHOPS, PASSFACTS, MAPRANGES, GLOBALS, TEXTFLAGS, TEXTFLAGH, REGS, REGHW, REGVARS] + forms_modules() + ctors_modules() + [MOV, TAGCHARS, CONSTS, C05CONSTSAMPLES, ASMBP] + formactions_modules() + [SELFMOVEFACTS, MOVEHW]
